@@ -1,5 +1,7 @@
-\* C16 gate machine, quick tier: every hiding operation with one root selection, and with
-\* two where the second is a plain one (Big = FALSE). Measured: see notes/C16.md.
+\* C16 gate machine, quick tier. Constants: Big = FALSE: every hiding operation with one root
+\* selection, and with two where the second is a plain one; extension installed or not.
+\* Measured: 2228 operations, 17068 states generated, 15092 distinct, depth 6, ~6 s; -coverage 1:
+\* every disjunct of GNext (CreateOpCtx, MutateOpCtx, NoMutator, Resolve, Finish) is taken.
 CONSTANTS
     Big = FALSE
     Schemas <- MCSchemas
